@@ -62,9 +62,9 @@ def spawn_child(i, path, lock, rlock, bsem, cond, ev, conn):
                         conn.send(('stuck', 'cond'))
                         return
                     a[16 + i] = 1
-                    t0 = time.monotonic()
+                    t0, t0r = time.monotonic(), time.time()
                     r = cond.wait(to)
-                    el = time.monotonic() - t0
+                    el = max(time.monotonic() - t0, time.time() - t0r)
                     a[16 + i] = 2
                     cond.release()
                     conn.send(('cwait', r, el))
